@@ -840,7 +840,7 @@ impl ProxyServer {
         mut http_connection_context: HttpConnectionContext,
         request: Request<Limited<Incoming>>,
     ) -> Result<Response<BoxBody<Bytes, hyper::Error>>> {
-        let (head, body) = request.into_parts();
+        let (mut head, body) = request.into_parts();
         let whole_body = match body.collect().await {
             Ok(data) => data.to_bytes(),
             Err(e) => {
@@ -851,6 +851,11 @@ impl ProxyServer {
                 return Ok(Self::empty_response(StatusCode::BAD_REQUEST));
             }
         };
+        if whole_body.is_empty() {
+            // hyper does not send `transfer-encoding` for an empty body,
+            // so it must not be part of the signed headers either.
+            head.headers.remove(hyper::header::TRANSFER_ENCODING);
+        }
 
         http_connection_context.log(
             LoggerLevel::Trace,
